@@ -32,21 +32,27 @@ NEEDS_TF = False
 LEVEL = 'exploration'
 RULE = (
     'Hypothesis draws family (classification C in {2,3,5} / sequence C in '
-    '{2,3,5} x T in {1,3,4}), 0..10 examples (labels in [0,C), scores k/4 with '
-    'ties and occasional +-1024, a domain id), a random permutation cut into '
-    'batches of 1..8 real rows, a padded size from {1,2,3,4,8} per batch, '
-    'prefix or arbitrary padding positions, 0..2 extra all-padding batches, '
-    'padding rows filled with other in-domain examples (not zeros), and whether '
-    'unpadded batches carry a mask feature. batch_merge draws one metric from a '
-    'menu of 8 (classification) / 30 (sequence) base instances, optionally '
-    'wrapped in PerDomainMetric(D in 1..4); model_paths evaluates the whole '
-    'menu inside one mock model. stat_laws draws raw MeanStat/SumStat values '
-    '(dyadic, incl. out-of-domain weights <= 0) of shape (), (3,), (2,3). '
-    'A case of the evaluation checks is non-trivial when (>=2 batches of '
+    '{2,3,5} x T in {1,3,4}), 0..10 examples (16 thorough; labels in [0,C), '
+    'scores k/4 with ties and occasional +-1024, fully masked sequences, a '
+    'domain id), a random permutation cut into batches, two padded sizes per '
+    'case from {1,2,3,4,8}, prefix / arbitrary / no padding positions, 0..2 '
+    'extra all-padding batches, padding rows filled with other in-domain '
+    'examples (not zeros), and whether unpadded batches carry a mask feature. '
+    'batch_merge draws one metric from a registry of 8 classification / 30 '
+    'sequence instances (all 14 classes; k in {-2..C+2}, masked_target_values, '
+    'logits_mask with -inf, per_position), optionally wrapped in '
+    'PerDomainMetric(D in 1..4); model_paths evaluates a menu of 8 / 17 '
+    '(quick: core, 4 model shapes) or 14 / 41 (thorough: also full, 12 model '
+    'shapes) instances inside one mock model and in 1/4 of the cases also '
+    'feeds ClientDataset.padded_batch(batch_size, buckets in 1..4) over the same '
+    'examples; empty_or_fully_masked forces zero '
+    'real examples. stat_laws draws three raw MeanStat/SumStat operands '
+    '(multiples of 1/8, incl. out-of-domain weights <= 0) of shape (), (3,), '
+    '(4,), (2,3). An evaluation case is non-trivial when (>=2 batches of '
     'different padded size and >=1 padding row whose content is not all zero) '
-    'or some batch is entirely padding; a stat_laws case is non-trivial when '
-    'some weight is 0 next to a non-zero accum or the three operands are not '
-    'all equal. distinct = distinct canonical case JSON.')
+    'or some batch is entirely padding (empty_or_fully_masked: every case); a '
+    'stat_laws case when some weight <= 0 sits next to a non-zero accum or the '
+    'three operands are not all equal. distinct = distinct canonical case JSON.')
 ASSUMPTIONS = [
     'scores are finite dyadic rationals with |score| <= 1024 (cross entropy is '
     'NaN by construction for infinite logits); labels lie in [0, num_classes), '
@@ -319,6 +325,10 @@ def fields(stat):
   raise Violation('stat_type', f'unexpected Stat type {type(stat).__name__}')
 
 
+def show(stat):
+  return {k: v.tolist() for k, v in fields(stat).items()}
+
+
 def close(a, b, exact, span, ulps=0):
   """a, b: float arrays of equal shape."""
   a = np.asarray(a, dtype=np.float64)
@@ -376,6 +386,7 @@ def compare_results(ref, got, exact, span, clause, what, zero_shapes=None):
 
 
 def same_bits(a, b):
+  """Same shapes and == values (-0.0 == 0.0) in every field."""
   fa, fb = fields(a), fields(b)
   return all(fa[k].shape == fb[k].shape and
              np.array_equal(fa[k], fb[k], equal_nan=True) for k in fa)
@@ -409,8 +420,7 @@ def run_batch_merge(case):
       batch_stats.append(M.evaluate_batch(metric, feats, feats['pred'], mask))
 
   # 2. single-example statistics and the Metric/Stat laws on them.
-  # (the docs pass jnp arrays to evaluate_example; a numpy `pred` would be
-  # modified in place by the metrics that do `pred += logits_mask`)
+  # (jnp arrays, as in the documentation's examples of evaluate_example)
   jex = [{k: jnp.asarray(v) for k, v in e.items()} for e in ex]
   singles = [metric.evaluate_example(e, e['pred']) for e in jex]
   for i, v in enumerate(singles):
@@ -418,7 +428,7 @@ def run_batch_merge(case):
             f'{cls}: zero() is {type(zero).__name__}, statistic {type(v).__name__}')
     for side, w in (('zero.merge(v)', zero.merge(v)), ('v.merge(zero)', v.merge(zero))):
       require(same_bits(w, v), 'metric_laws:zero_not_identity',
-              lambda: f'{cls}: {side} = {fields(w)} but v = {fields(v)} (example {i})')
+              lambda: f'{cls}: {side} = {show(w)} but v = {show(v)} (example {i})')
   for i in range(min(len(singles), 4) - 1):
     a, b = singles[i], singles[i + 1]
     require(same_bits(a.merge(b), b.merge(a)), 'metric_laws:not_commutative',
@@ -496,6 +506,14 @@ def run_model_paths(case):
     if case.get('as_generator'):
       results['evaluate_model(generator)'] = fedjax.evaluate_model(
           model, None, (b for b in user_batches))
+  pb = case.get('padded_batch')
+  if pb and ex:
+    # the documented producer of padded batches (zero content, prefix mask,
+    # final batch size from the bucket rule), over the examples in case order
+    dataset = fedjax.ClientDataset({k: np.stack([e[k] for e in ex]) for k in ex[0]})
+    results['evaluate_model(padded_batch)'] = fedjax.evaluate_model(
+        model, None, dataset.padded_batch(
+            batch_size=pb['batch_size'], num_batch_size_buckets=pb['buckets']))
   if 'evaluator' in case['via']:
     evaluator = build_evaluator(fam, c, t, menu)
     rev = list(reversed(user_batches))
@@ -580,12 +598,12 @@ def run_stat_laws(case):
   zfull = make({k: np.zeros(shape, np.float32) for k in raw[0]})
   for zname, z in (('scalar zero', zero), ('zeros', zfull)):
     require(same_bits(z.merge(a), a) and same_bits(a.merge(z), a),
-            'laws:zero_not_identity', f'{zname}: {fields(z.merge(a))} vs {fields(a)}')
+            'laws:zero_not_identity', f'{zname}: {show(z.merge(a))} vs {show(a)}')
   require(same_bits(a.merge(b), b.merge(a)), 'laws:not_commutative',
-          f'{fields(a.merge(b))} vs {fields(b.merge(a))}')
+          f'{show(a.merge(b))} vs {show(b.merge(a))}')
   # operands are multiples of 1/8 below 2^10: float32 sums are exact
   require(same_bits(a.merge(b).merge(c), a.merge(b.merge(c))), 'laws:not_associative',
-          f'{fields(a.merge(b).merge(c))} vs {fields(a.merge(b.merge(c)))}')
+          f'{show(a.merge(b).merge(c))} vs {show(a.merge(b.merge(c)))}')
   # merged statistic stays in the domain and yields the pooled mean
   m = a.merge(b)
   fm, fa, fb = fields(m), fields(a), fields(b)
@@ -600,10 +618,10 @@ def run_stat_laws(case):
       sl = make({k: np.asarray(fields(a)[k][i]) for k in fields(a)})
       acc = sl if acc is None else acc.merge(sl)
     require(same_bits(red, acc), 'reduce:not_fold_of_merge',
-            f'{fields(red)} vs {fields(acc)}')
+            f'{show(red)} vs {show(acc)}')
     alln = a.reduce(axis=None)
     tot = {k: np.asarray(v.sum(dtype=np.float32)) for k, v in fields(a).items()}
-    require(same_bits(alln, make(tot)), 'reduce:axis_none', f'{fields(alln)} vs {tot}')
+    require(same_bits(alln, make(tot)), 'reduce:axis_none', f'{show(alln)} vs {tot}')
     r = np.asarray(red.result())
     require(bool(np.isfinite(r).all()), 'reduce:result_not_finite', f'{r.tolist()}')
 
@@ -681,7 +699,9 @@ def shape_strategy(draw, tier='thorough', for_model=False):
 @st.composite
 def batch_case_strategy(draw, tier, force_empty=False):
   family, c, t = draw(shape_strategy())
-  name = draw(st.sampled_from(sorted(BASES[family])))
+  names = sorted(BASES[family])
+  # per-position instances twice: their statistic shape differs from zero()'s
+  name = draw(st.sampled_from(names + [n for n in names if BASES[family][n][1]]))
   pds = [pd for pd in (0, 0, 1, 2, 3, 4) if not known_excluded(family, name, pd, t)]
   pd = draw(st.sampled_from(pds))
   case = {'family': family, 'C': c}
@@ -707,6 +727,10 @@ def model_case_strategy(draw, tier, force_empty=False):
   case['as_generator'] = draw(st.booleans())
   case.update(draw(partition_strategy(family, c, t, 10 if tier == 'quick' else 16,
                                       force_empty)))
+  if not force_empty and draw(st.integers(0, 3)) == 0:
+    used = sorted({len(b) for b in case['batches']}) or SIZES
+    case['padded_batch'] = {'batch_size': draw(st.sampled_from(used)),
+                            'buckets': draw(st.integers(1, 4))}
   return case
 
 
@@ -766,6 +790,8 @@ def eval_labels(case):
       ls.append('excluded_known:perdomain-per-position')
   elif 'via' in case:
     ls += ['via:' + v for v in case['via']]
+    if case.get('padded_batch') and case['examples']:
+      ls.append('via:ClientDataset.padded_batch')
     if case['family'] == 'seq':
       ls.append('excluded_known:perdomain-per-position')
   n = len(case['examples'])
@@ -819,7 +845,7 @@ CHECKS = [
     Check(name='batch_merge', run=run_batch_merge,
           strategy=batch_case_strategy, labels=eval_labels,
           nontrivial=eval_nontrivial,
-          budget={'quick': 512, 'thorough': 12000}, time_share=2.0,
+          budget={'quick': 512, 'thorough': 9600}, time_share=2.0,
           doc='one metric: evaluate_batch (with / without mask) per batch == fold '
               'of its real rows; merged in batch order and reversed == fold of '
               'all single-example statistics from zero(); zero() identity, '
@@ -827,7 +853,7 @@ CHECKS = [
     Check(name='model_paths', run=run_model_paths,
           strategy=model_case_strategy, labels=eval_labels,
           nontrivial=eval_nontrivial,
-          budget={'quick': 288, 'thorough': 8000}, time_share=5.0,
+          budget={'quick': 288, 'thorough': 6400}, time_share=5.0,
           doc='whole metric menu in the mock model of the docs: '
               'fedjax.evaluate_model and ModelEvaluator.evaluate_global_params / '
               'evaluate_per_client_params (batch list forward and reversed) == '
